@@ -75,7 +75,7 @@ func (m c12mapper) MapType(mm *Measurement, field string) DataType {
 var c12rank = map[DataType]int{Float: 9, Integer: 8, Unsigned: 7, String: 6, Boolean: 5, Time: 4, Duration: 3, Tag: 2, AnyField: 1, Unknown: 0}
 
 func TestZZBoundedC12(t *testing.T) {
-	fmt.Println("BOUNDED-BOUND: 4 schemas x 17 statements x 25 repetitions; oracle: sorted matching columns with the highest-precedence type, tags out of calls and out of grouped fields, identical text on every repetition")
+	fmt.Println("BOUNDED-BOUND: 4 schemas x 19 statements x 25 repetitions; oracle: sorted matching columns with the highest-precedence type, tags out of calls and out of grouped fields, identical text on every repetition")
 	type ms = struct {
 		fields map[string]DataType
 		tags   []string
@@ -94,6 +94,7 @@ func TestZZBoundedC12(t *testing.T) {
 		"SELECT cumulative_sum(derivative(mean(*))) FROM %s GROUP BY time(1m)", "SELECT derivative(mean(/v|w/)) FROM %s GROUP BY time(1m)",
 		"SELECT mean(v) FROM (SELECT host, v FROM %s GROUP BY host, region) GROUP BY *",
 		"SELECT /^(w|host|v|w)$/ FROM %s", "SELECT * FROM (SELECT v, nosuch FROM %s)",
+		"SELECT w, host FROM (SELECT * FROM %s)", "SELECT v FROM %s GROUP BY /ost/, /egion$/",
 	}
 	total, ok := 0, 0
 	fails := map[string]int{}
@@ -227,6 +228,27 @@ func TestZZBoundedC12(t *testing.T) {
 				if !strings.HasPrefix(outs[0], "error") && !strings.Contains(strings.SplitN(outs[0], " FROM ", 2)[0], "nosuch") {
 					fail("untyped-subquery-column-lost", fmt.Sprintf("schema %d: %q -> %q", si, text, outs[0]))
 				}
+			case 17: // references to columns that exist only after the subquery's wildcard is expanded get their types
+				if !strings.HasPrefix(outs[0], "error") {
+					head := strings.SplitN(outs[0], " FROM ", 2)[0]
+					if t, have := fieldT["w"]; have && !strings.Contains(head, "w::"+t.String()) {
+						fail("outer-reference-untyped", fmt.Sprintf("schema %d: %q -> %q", si, text, outs[0]))
+					}
+					if _, isField := fieldT["host"]; !isField && tagSet["host"] && !strings.Contains(head, "host::tag") {
+						fail("outer-reference-untyped", fmt.Sprintf("schema %d: %q -> %q", si, text, outs[0]))
+					}
+				}
+			case 18: // GROUP BY /regex/ is unanchored: every tag key that contains a match
+				for tg := range tagSet {
+					if strings.Contains(tg, "ost") || strings.HasSuffix(tg, "egion") {
+						cols = append(cols, tg)
+					}
+				}
+				sort.Strings(cols)
+				if _, have := fieldT["v"]; have && len(cols) > 0 && !strings.HasSuffix(outs[0], " GROUP BY "+strings.Join(cols, ", ")) {
+					fail("group-by-regex-lost-keys", fmt.Sprintf("schema %d: %q -> %q, expected GROUP BY %s", si, text, outs[0], strings.Join(cols, ", ")))
+				}
+				cols = nil
 			case 14: // the GROUP BY keys of a subquery are the tag keys an outer GROUP BY * expands to, selected or not
 				if !strings.HasPrefix(outs[0], "error") && !strings.HasSuffix(outs[0], " GROUP BY host, region") {
 					fail("subquery-dimensions-lost", fmt.Sprintf("schema %d: %q -> %q", si, text, outs[0]))
